@@ -1011,7 +1011,7 @@ main(int argc, char **argv)
     perror("mmap");
     return 2;
   }
-  base_cfg.horizon = horizon ? horizon : VS_MAXCP;
+  base_cfg.horizon = horizon ? horizon : VS_DEFCP;
   base_cfg.trace_fd = dup(2);
   fs_epoch = time(NULL) - 5;
   fs_private("main");
@@ -1218,7 +1218,7 @@ main(int argc, char **argv)
     }
     if (!horizon) {
       cap = 20 * maxn + 400;
-      if (cap > VS_MAXCP) cap = VS_MAXCP;
+      if (cap > VS_DEFCP) cap = VS_DEFCP;
       base_cfg.horizon = cap;
     }
     items = mmap(NULL, (nit + 1) * sizeof *items, PROT_READ | PROT_WRITE,
